@@ -122,7 +122,8 @@ def narrowing_rule(F, R, rule, scope_text, in_scope, floor, audited=None):
                     continue
                 D = D or Discharger(F, fn)
                 src = D.src_local(st["rv"]["op"])
-                lo, hi = D.range_of(src["l"], bi) if src is not None and not src["p"] else (None, None)
+                vk = D.vkey(st["rv"]["op"])
+                lo, hi = D.range_of(vk, bi) if vk is not None else (None, None)
                 if lo is not None and hi is not None and d[0] <= lo and hi <= d[1]:
                     R.ok(rule, inst, "source in [%d, %d] by dominating guards" % (lo, hi), fn.loc(st), how="guard")
                     continue
